@@ -3,9 +3,11 @@
   Property theorems only; every theorem is about the model instantiated with the facts regenerated from /repo
   (`Generated.facts07`), side conditions discharged by `decide`.
 
-  `gen F e I url` is the model of `Wsdl11.build_interface_document`: `I` is the populated `Interface` (any number of
+  `build F e I url` = `gen F e (I.addMethodFaults F) url`: `addMethodFaults` is the step of `Interface.add_method`
+  that moves declared faults into the tns, `gen` the model of `Wsdl11.build_interface_document`; `I` is the
+  `Interface` (any number of
   services, methods, classes, namespaces), `e` the iteration order of every unordered container of the process
-  (it stands for PYTHONHASHSEED and the memory layout), `I.wf` / `I.wfOps` the contract of `populate_interface`
+  (it stands for PYTHONHASHSEED and the memory layout), `wfCore` / `wfOps` the contract of `populate_interface`
   and of the `@rpc` declarations (evaluated by the harness on every real application).
 -/
 import Proofs.WsdlFinal
@@ -33,40 +35,57 @@ theorem toposort_complete (e : Enum) (he : e.Valid) (key : Nat → List Nat) (d 
 /-- **building the document in any process yields the same document**: for every application and every two
     enumerations of the process' unordered containers (hash seeds, memory layouts, repetitions) -/
 theorem wsdl_deterministic (e₁ e₂ : Enum) (h₁ : e₁.Valid) (h₂ : e₂.Valid) (I : IState) (url : String) :
-    gen facts07 e₁ I url = gen facts07 e₂ I url :=
-  gen_enum_irrelevant facts07 (by decide) (by decide) e₁ e₂ h₁ h₂ I url
+    build facts07 e₁ I url = build facts07 e₂ I url :=
+  gen_enum_irrelevant facts07 (by decide) (by decide) e₁ e₂ h₁ h₂ _ url
+
+/-- the interface as `add_method` leaves it -/
+abbrev populated (I : IState) : IState := I.addMethodFaults facts07
+
+/-- `add_method` puts every declared fault into the target namespace, whatever `__namespace__` it declares: the
+    fault clause of the contract holds by construction -/
+theorem faults_in_tns (I : IState) (h : (populated I).wfCore = true) : (populated I).wf = true :=
+  wf_of_core_forced facts07 (by decide) I h
 
 /-! ### closed -/
 
 /-- every `message=` (portType operations, soap:header), binding `type=` and port `binding=` resolves -/
 theorem message_porttype_binding_refs_closed (e : Enum) (I : IState) (url : String) (d : Doc)
-    (h : gen facts07 e I url = .ok d) (hwf : I.wf = true) :
+    (h : build facts07 e I url = .ok d) (hwf : (populated I).wfCore = true) :
     (∀ q ∈ d.msgRefs, d.msgDefined q = true) ∧ (∀ q ∈ d.portTypeRefs, d.portTypeDefined q = true) ∧
     (∀ q ∈ d.bindingRefs, d.bindingDefined q = true) :=
-  wsdl_refs_closed_general facts07 (by decide) e I url d h hwf
+  wsdl_refs_closed_general facts07 (by decide) e (populated I) url d h (faults_in_tns I hwf)
 
 /-- every `type=`, `base=` (embedded schemas) and `element=` (message parts) resolves to a definition in the
     document or to an XSD builtin, and is written with a prefix declared on the root element -/
 theorem schema_refs_closed (e : Enum) (he : e.Valid) (I : IState) (url : String) (d : Doc)
-    (h : gen facts07 e I url = .ok d) (hwf : I.wf = true) :
+    (h : build facts07 e I url = .ok d) (hwf : (populated I).wfCore = true) :
     (∀ q ∈ d.typeRefs, d.typeDefined q = true) ∧ (∀ q ∈ d.elemRefs, d.elemDefined q = true) :=
-  schema_refs_closed_general facts07 e he I url d h hwf
+  schema_refs_closed_general facts07 e he (populated I) url d h (faults_in_tns I hwf)
 
-/-- **the document is closed**: every QName reference (type, base, element, message, binding, port) resolves -/
+/-- every `soap:header/@part` (input and output, one or several headers) names a part of the message that
+    `soap:header/@message` names -/
+theorem header_parts_resolve (e : Enum) (I : IState) (url : String) (d : Doc)
+    (h : build facts07 e I url = .ok d) (hwf : (populated I).wfCore = true) :
+    ∀ bh ∈ d.headerRefs, d.headerPartOk bh = true :=
+  header_parts_general facts07 e (populated I) url d h (faults_in_tns I hwf)
+
+/-- **the document is closed**: every QName reference (type, base, element, message incl. wsdl:fault and
+    soap:header, header part, binding, port) resolves -/
 theorem wsdl_closed (e : Enum) (he : e.Valid) (I : IState) (url : String) (d : Doc)
-    (h : gen facts07 e I url = .ok d) (hwf : I.wf = true) : d.closed = true := by
+    (h : build facts07 e I url = .ok d) (hwf : (populated I).wfCore = true) : d.closed = true := by
   obtain ⟨h1, h2, h3⟩ := message_porttype_binding_refs_closed e I url d h hwf
   obtain ⟨h4, h5⟩ := schema_refs_closed e he I url d h hwf
+  have h6 := header_parts_resolve e I url d h hwf
   simp only [Doc.closed, Bool.and_eq_true, List.all_eq_true]
-  exact ⟨⟨⟨⟨h4, h5⟩, h1⟩, h2⟩, h3⟩
+  exact ⟨⟨⟨⟨⟨h4, h5⟩, h1⟩, h2⟩, h3⟩, h6⟩
 
 /-- two namespaces are never written with the same prefix -/
 theorem prefixes_injective (e : Enum) (I : IState) (url : String) (d : Doc)
-    (h : gen facts07 e I url = .ok d) (hwf : I.wf = true) (ns₁ ns₂ : String) (pf : Pref)
+    (h : build facts07 e I url = .ok d) (hwf : (populated I).wfCore = true) (ns₁ ns₂ : String) (pf : Pref)
     (h₁ : d.prefmap.lookup ns₁ = some pf) (h₂ : d.prefmap.lookup ns₂ = some pf) : ns₁ = ns₂ := by
-  obtain ⟨schemas, tr, _, rfl⟩ := gen_ok facts07 e I url d h
-  have hw := wf_unpack I hwf
-  exact prefix_injective _ (touchAll_inv _ (touchAll_inv _ (init_inv I hw.prefNodup hw.tnsFresh hw.tnsPref) _) _)
+  obtain ⟨schemas, tr, _, rfl⟩ := gen_ok facts07 e (populated I) url d h
+  have hw := wf_unpack (populated I) (faults_in_tns I hwf)
+  exact prefix_injective _ (touchAll_inv _ (touchAll_inv _ (init_inv (populated I) hw.prefNodup hw.tnsFresh hw.tnsPref) _) _)
     ns₁ ns₂ pf h₁ h₂
 
 /-! ### every exposed method is exactly one operation -/
@@ -74,18 +93,18 @@ theorem prefixes_injective (e : Enum) (I : IState) (url : String) (d : Doc)
 /-- for every method of every service: exactly one `wsdl:operation` of that name in all portTypes, exactly one in
     all bindings, they sit in a portType and in the binding that is typed by that portType, and they agree on the
     input/output names, the messages and the declared faults -/
-theorem ops_exactly_once (e : Enum) (I : IState) (url : String) (d : Doc) (h : gen facts07 e I url = .ok d)
-    (hw : I.wfOps = true) (s : Svc) (hs : s ∈ I.services) (m : Meth) (hm : m ∈ s.methods) :
+theorem ops_exactly_once (e : Enum) (I₀ : IState) (url : String) (d : Doc) (h : build facts07 e I₀ url = .ok d)
+    (hw : (populated I₀).wfOps = true) (s : Svc) (hs : s ∈ (populated I₀).services) (m : Meth) (hm : m ∈ s.methods) :
     opCount m.opName d.portTypes = 1 ∧ bopCount m.opName d.bindings = 1 ∧
     ∃ pt ∈ d.portTypes, ∃ b ∈ d.bindings, b.type = ⟨d.tns, pt.name⟩ ∧
       ∃ o ∈ pt.ops, ∃ bo ∈ b.ops, o.name = m.opName ∧ bo.name = m.opName ∧ bo.soapAction = m.opName ∧
         o.inName = bo.inName ∧ o.outName = bo.outName ∧
-        o.inMsg.loc = (I.cls m.inMsg).elemName ∧ o.outMsg.loc = (I.cls m.outMsg).elemName ∧
-        o.faults.map (·.name) = m.faults.map (fun f => (I.cls f).tn) ∧
-        bo.faults = m.faults.map (fun f => (I.cls f).tn) := by
+        o.inMsg.loc = ((populated I₀).cls m.inMsg).elemName ∧ o.outMsg.loc = ((populated I₀).cls m.outMsg).elemName ∧
+        o.faults.map (·.name) = m.faults.map (fun f => ((populated I₀).cls f).tn) ∧
+        bo.faults = m.faults.map (fun f => ((populated I₀).cls f).tn) := by
   obtain ⟨h1, h2, pt, hpt, b, hb, _, hty, ho, hbo⟩ :=
-    ops_exactly_once_general facts07 (by decide) e I url d h hw s hs m hm
-  refine ⟨h1, h2, pt, hpt, b, hb, hty, mkOp I m, ho, mkBOp facts07 I m, hbo, rfl, rfl, rfl, rfl, rfl, rfl, rfl, ?_, rfl⟩
+    ops_exactly_once_general facts07 (by decide) e (populated I₀) url d h hw s hs m hm
+  refine ⟨h1, h2, pt, hpt, b, hb, hty, mkOp (populated I₀) m, ho, mkBOp facts07 (populated I₀) m, hbo, rfl, rfl, rfl, rfl, rfl, rfl, rfl, ?_, rfl⟩
   simp [mkOp, List.map_map, Function.comp]
 
 /-! ### what goes wrong with other facts (the pinned tree) -/
@@ -151,14 +170,28 @@ theorem porttype_witness :
     (match gen { facts07 with opPortType := .lastDeclared } Enum.id exI "u" with
       | .ok d => d.opsExactlyOnce exI | _ => true) = false := by decide +kernel
 
+/-- `exI` with its fault declared in a library namespace -/
+def exF : IState :=
+  { exI with classes := exI.classes.set 2 { exI.cls 2 with ns := "urn:c07:faultlib" },
+             imports := exI.imports ++ [("urn:c07:faultlib", [])] }
+
+/-- if `add_method` kept the declared namespace of a fault, `wsdl:fault/@message` would point outside the tns -/
+theorem fault_namespace_witness :
+    (match build { facts07 with faultNs := .keptDeclared } Enum.id exF "u" with
+      | .ok d => d.closed | _ => true) = false := by decide +kernel
+
 /-! ### non-vacuity: the hypotheses hold for a concrete application (2 port types, header in a foreign namespace,
     inheritance across namespaces, array, attribute, restricted simple type, fault, bare method) -/
 
-example : exI.wf = true := by decide +kernel
-example : exI.wfOps = true := by decide +kernel
-example : (match gen facts07 Enum.id exI "http://h/app?wsdl" with | .ok d => d.closed && d.opsExactlyOnce exI && d.importsCover | _ => false) = true := by
+example : (populated exI).wfCore = true := by decide +kernel
+example : (populated exI).wfOps = true := by decide +kernel
+example : (match build facts07 Enum.id exI "http://h/app?wsdl" with | .ok d => d.closed && d.opsExactlyOnce exI && d.importsCover | _ => false) = true := by
   decide +kernel
-example : exT.wf = true ∧ exT.wfOps = true := by decide +kernel
+example : (populated exF).wfCore = true ∧ (exF.cls 2).ns = "urn:c07:faultlib" ∧ ((populated exF).cls 2).ns = "tns.main" := by
+  decide +kernel
+example : (match build facts07 Enum.id exF "u" with | .ok d => d.closed && !d.headerRefs.isEmpty | _ => false) = true := by
+  decide +kernel
+example : (populated exT).wfCore = true ∧ exT.wfOps = true := by decide +kernel
 example : Enum.rev.Valid := Enum.rev_valid
 example : exI.deps ≠ [] := by decide
 
